@@ -39,6 +39,10 @@ type Opts struct {
 	Palette  *[64]color.RGBA
 	NoReset  bool
 	ShortRun bool // keep run lengths small
+	// last is the previous styling call: redundant calls (the same call again,
+	// or one that restates the reset defaults) are generated on purpose, since
+	// "nothing changes, skip it" shortcuts are a classic source of mistakes.
+	last *rec.Op
 }
 
 // ViewBox returns a finite, non-inverted viewBox with numbers of many classes.
@@ -76,6 +80,28 @@ func ViewBox(r *run.Rng) ivg.ViewBox {
 
 // StylingOp returns a random legal styling call.
 func StylingOp(r *run.Rng, o *Opts) rec.Op {
+	switch r.Intn(16) {
+	case 0:
+		if o.last != nil {
+			return *o.last // exactly the previous styling call again
+		}
+	case 1:
+		// restate a reset default
+		switch r.Intn(3) {
+		case 0:
+			return rec.Op{K: rec.KSetLOD, F: [6]float32{0, float32(math.Inf(1))}}
+		case 1:
+			return rec.Op{K: rec.KSetCSel, Sel: 0}
+		default:
+			return rec.Op{K: rec.KSetNSel, Sel: 0}
+		}
+	}
+	op := stylingOp(r, o)
+	o.last = &op
+	return op
+}
+
+func stylingOp(r *run.Rng, o *Opts) rec.Op {
 	adjIncr := func() (uint8, bool) {
 		if r.Chance(1, 3) {
 			return 0, true
